@@ -243,6 +243,25 @@ class Bus:
             c.inbox = []
         return mon, by, lat, ok and ok2
 
+    def cpu_ticks(self):
+        """utime + stime of the daemon in clock ticks (/proc/<pid>/stat fields 14 and 15)"""
+        try:
+            f = open("/proc/%d/stat" % self.d.proc.pid).read()
+            rest = f[f.rindex(")") + 2:].split()
+            return int(rest[11]) + int(rest[12])
+        except (OSError, ValueError, IndexError):
+            return None
+
+    def idle_cpu(self, interval=0.3):
+        """fraction of one CPU the daemon burns while every client is idle; None if it cannot be sampled"""
+        hz = os.sysconf("SC_CLK_TCK")
+        a, t0 = self.cpu_ticks(), time.time()
+        time.sleep(interval)
+        b, dt = self.cpu_ticks(), time.time() - t0
+        if a is None or b is None or dt <= 0:
+            return None
+        return (b - a) / float(hz) / dt
+
     def stop(self):
         for c in (self.M, self.W1, self.W2, self.O):
             c.close()
@@ -294,6 +313,56 @@ def blast(bus, h, payload, seconds):
     return sent[0], worst, ok_all, n
 
 
+SPIN_FRACTION = 0.20      # an idle daemon is at ~0; a poll loop that wakes up for nothing is at ~1
+
+
+def throttle(bus, socks, spec, problem, stats):
+    """a registered client floods directed signals to a recipient that never reads until the bus stops reading from it
+    (max_incoming_bytes of the configuration reached, its bytes are all queued for the recipient), then sockets are closed
+    abruptly in the given order.  Not compared with the model: service level, survival and idle CPU are observed."""
+    snd, rcv = socks.get(spec["sender"]), socks.get(spec["recipient"])
+    if snd is None or rcv is None:
+        return
+    rcv.mute = True
+    payload = memoryview(bytes.fromhex(spec["payload"]))
+    sent, stalled_since, off = 0, None, 0
+    t_end = time.time() + 8.0
+    while time.time() < t_end and sent < spec.get("max_bytes", 6000000) and not snd.eof:
+        try:
+            n = snd.s.send(payload[off:])
+            sent += n
+            off = (off + n) % len(payload)
+            stalled_since = None
+        except (BlockingIOError, InterruptedError):
+            if stalled_since is None:
+                stalled_since = time.time()
+            elif time.time() - stalled_since > 0.4:
+                break                      # the bus has stopped reading: socket buffers are full
+            select.select([], [snd.s], [], 0.05)
+        except (BrokenPipeError, ConnectionResetError, OSError):
+            snd.eof = True
+    stats["throttle_bytes"] = sent
+    stats["throttled"] = stalled_since is not None
+    lat, ok, _ = bus.barrier()
+    if not ok or lat > LAT_BOUND:
+        problem("violation", "while connection %d is throttled (%d bytes queued for a recipient that does not read) a bystander round trip %s (%.3f s)" % (spec["sender"], sent, "failed" if not ok else "was slow", lat))
+        return
+    for who in spec["close_order"]:
+        h = socks.get(who)
+        if h is not None:
+            h.close()
+        lat, ok, _ = bus.barrier()
+        if not ok or lat > LAT_BOUND:
+            problem("violation", "after connection %d closed (throttle scenario) a bystander round trip %s (%.3f s)" % (who, "failed" if not ok else "was slow", lat))
+            return
+        frac = bus.idle_cpu(0.5)
+        stats["idle_cpu_max"] = max(stats.get("idle_cpu_max", 0.0), frac or 0.0)
+        if frac is not None and frac > SPIN_FRACTION:
+            problem("violation", "after connection %d closed its socket while the bus was not reading from it, the idle daemon burns %.0f %% of a CPU (threshold %.0f %%): it spins"
+                    % (who, 100 * frac, 100 * SPIN_FRACTION))
+            return
+
+
 def parse_groups(line):
     """model output of `script` -> per client event: list of (tag, [tokens])"""
     groups = []
@@ -310,7 +379,7 @@ def parse_groups(line):
     return groups
 
 
-def run_script(bus, script, groups, canaries, blast_spec=None, noread=(), strict=False):
+def run_script(bus, script, groups, canaries, blast_spec=None, noread=(), strict=False, throttle_spec=None, idle_check=False):
     """script: list of ("C", c) / ("W", c, bytes) / ("X", c) / ("S", ms); groups: parse_groups(model line);
     canaries: list of byte strings planted in messages.  Returns dict(problems=[(kind, text)], observed=[...], stats)"""
     socks, names, gone_expected = {}, {}, set()
@@ -513,6 +582,16 @@ def run_script(bus, script, groups, canaries, blast_spec=None, noread=(), strict
                     break
             if not ok:
                 problem("violation", "after the flood the bus (or its monitor) did not come back within 60 s")
+    if throttle_spec and not problems:
+        throttle(bus, socks, throttle_spec, problem, stats)
+        t_end = time.time() + 30
+        ok = False
+        while time.time() < t_end and not problems:
+            mon, by, lat, ok = bus.sync()
+            if ok:
+                break
+        if not ok and not problems:
+            problem("violation", "after the throttle scenario the bus (or its monitor) did not come back within 30 s")
     # ---- end of script: peer-to-peer service check, then leave a clean bus
     if not problems:
         lat, ok = bus.p2p()
@@ -536,6 +615,14 @@ def run_script(bus, script, groups, canaries, blast_spec=None, noread=(), strict
         # all byes may already have been seen during the script
         if not pending or all(("bye:%s" % n) in sum(observed, []) for n in pending):
             break
+    if idle_check and not problems and bus.d.alive():
+        # the resource side: with every client gone or idle the daemon must be asleep in poll()
+        frac = bus.idle_cpu(0.3)
+        if frac is not None and frac > SPIN_FRACTION:
+            frac = bus.idle_cpu(0.6)          # once more, longer: a neighbour's load must not be mistaken for a spin
+        stats["idle_cpu_max"] = max(stats.get("idle_cpu_max", 0.0), frac or 0.0)
+        if frac is not None and frac > SPIN_FRACTION:
+            problem("violation", "after the script, with all clients gone or idle, the daemon burns %.0f %% of a CPU (threshold %.0f %%): it spins" % (100 * frac, 100 * SPIN_FRACTION))
     if not bus.d.alive():
         problem("violation", "the daemon died")
     return {"problems": problems, "observed": observed, "stats": stats}
